@@ -79,5 +79,6 @@ PATTERNS = ["a", "b", "c", "ab", "ba", "^a", "a$", "b$", "^b", "^$", "", "a|b", 
             "\U0001F600", "é", "^\U0001F600$", " ", "^.{2,3}$", "x"]
 patterns = st.sampled_from(PATTERNS)
 # smaller pool for patternProperties names, so that several patterns meet the same keys
-PP_PATTERNS = ["", "a", "b", "^a", "b$", "a|b", "(a)\\1", "(b)\\1", "^ab?$", ".", "^$", "[0-9]", "c", "^b", "ab"]
+PP_PATTERNS = ["", "a", "b", "^a", "b$", "a|b", "(a)\\1", "(b)\\1", "^ab?$", ".", "^$", "[0-9]", "c", "^b", "ab", "^%",
+               "%s", "a%"]
 pp_patterns = st.sampled_from(PP_PATTERNS)
